@@ -4,6 +4,7 @@
       vibesql-executor/src/insert/row_validator.rs   RowValidator::{validate_column_constraints,
                                                      validate_primary_key_uniqueness, validate_foreign_keys}
       vibesql-executor/src/insert/execution.rs       execute_insert_internal (validate all rows, then insert all)
+      vibesql-executor/src/insert/bulk_transfer.rs   try_bulk_transfer / execute_bulk_transfer (validate all rows, then insert all)
       vibesql-executor/src/update/mod.rs             UpdateExecutor::execute_internal (steps 4-8)
       vibesql-executor/src/update/constraints.rs     validate_not_null / validate_primary_key
       vibesql-executor/src/update/foreign_keys.rs    ForeignKeyValidator::{validate_constraints, check_no_child_references}
@@ -11,7 +12,7 @@
       vibesql-executor/src/delete/integrity.rs       check_no_child_references, cascade_delete, set_null, set_default
       vibesql-executor/src/truncate_validation.rs    can_use_truncate / is_fk_referenced
       vibesql-executor/src/truncate/{mod,core,constraints}.rs   TRUNCATE [CASCADE], collect_fk_dependencies
-      vibesql-executor/src/drop_table.rs             DropTableExecutor::execute (no FOREIGN KEY guard at all)
+      vibesql-executor/src/drop_table.rs             DropTableExecutor::execute (refuses a table referenced by another table's key)
       vibesql-executor/src/alter/constraints.rs      ADD FOREIGN KEY (existing rows are not validated)
       vibesql-storage/src/table/mod.rs               Table::{insert, update_row, update_row_selective, delete_where, clear}
       vibesql-storage/src/table/normalization.rs     RowNormalizer::normalize_and_validate (column count / NOT NULL)
@@ -222,25 +223,22 @@ Inductive event :=
                          primary key or to another foreign key of the child (never re-checked, not propagated) *)
 | EvSelfRefPkUpdate   (* UPDATE assigns a primary-key column of a table that references itself *)
 | EvPkCollision       (* UPDATE gave two rows the same new primary key (C10 class multirow-update-same-new-key) *)
-| EvDropReferenced    (* DROP TABLE of a table that another table's FOREIGN KEY references *)
 | EvAddFkUnchecked    (* ALTER TABLE ADD FOREIGN KEY over rows that violate it *)
 | EvAddFkCycle        (* ALTER TABLE ADD FOREIGN KEY closing a cycle through several tables: refused, but only
                          after the table was removed from the catalog *)
-| EvBulkPkCollision   (* INSERT..SELECT bulk transfer met a primary-key collision: the engine's answer depends
-                         on the append-mode tracker (C10 class append-mode-bulk-transfer-duplicate-pk) *)
 | EvBulkNullKey       (* bulk transfer copied a row with a NULL primary-key value (the path does not re-check
                          NOT NULL; needs a NULL in a NOT NULL source column, never observed) *)
 | EvNonStandardFk.    (* the schema holds a FOREIGN KEY that does not reference the parent's PRIMARY KEY
-                         column-for-column, or whose columns are not declared in column order *)
+                         column-for-column *)
 
 Definition event_eqb (a b : event) : bool :=
   match a, b with
   | EvStaleCascadeRow, EvStaleCascadeRow | EvIndexShift, EvIndexShift | EvSetDefault, EvSetDefault
   | EvPartial, EvPartial | EvOverwrite, EvOverwrite | EvSideEffect, EvSideEffect
   | EvSelfRefPkUpdate, EvSelfRefPkUpdate | EvPkCollision, EvPkCollision
-  | EvDropReferenced, EvDropReferenced | EvAddFkUnchecked, EvAddFkUnchecked
+  | EvAddFkUnchecked, EvAddFkUnchecked
   | EvNonStandardFk, EvNonStandardFk | EvAddFkCycle, EvAddFkCycle
-  | EvBulkPkCollision, EvBulkPkCollision | EvBulkNullKey, EvBulkNullKey => true
+  | EvBulkNullKey, EvBulkNullKey => true
   | _, _ => false
   end.
 
@@ -284,7 +282,8 @@ Definition key_exists (fk : fkdecl) (vs : list val) (prows : list row) : bool :=
   existsb (zip_match (fk_pcols fk) vs) prows.
 
 (** validate the foreign keys of one new row of table [t]; [tuple] says how the values are
-    collected (column order on INSERT, declaration order on UPDATE) *)
+    collected (declaration order on INSERT and UPDATE since the repair of RowValidator phase 1;
+    [proj_colorder] is what phase 1 used to hand on) *)
 Fixpoint fk_validate (tuple : list nat -> row -> key) (d : db) (fks : list fkdecl) (r : row)
   : option errk :=
   match fks with
@@ -519,15 +518,15 @@ Fixpoint insert_validate (d : db) (tb : table) (batch : list key) (rs : list row
       if negb (Nat.eqb (length r) (ncols tb)) then Some EOther
       else if negb (notnull_okb tb r) then Some EConstraint
       else
-        (* the primary-key tuple is rebuilt in DECLARATION order after the column walk (the
-           foreign-key tuples below are not) *)
+        (* the primary-key tuple and the foreign-key tuples are rebuilt in DECLARATION order after
+           the column walk of RowValidator phase 1 *)
         let pkv := match t_pk tb with Some pk => Some (proj pk r) | None => None end in
         let dup := match pkv, t_pk tb with
                    | Some k, Some pk => key_mem k batch || key_mem k (map (proj pk) (t_rows tb))
                    | _, _ => false
                    end in
         if dup then Some EConstraint
-        else match fk_validate proj_colorder d (t_fks tb) r with
+        else match fk_validate proj d (t_fks tb) r with
              | Some e => Some e
              | None => insert_validate d tb (match pkv with Some k => k :: batch | None => batch end) rest
              end
@@ -561,33 +560,36 @@ Definition bulk_compatible (dst src : table) : bool :=
   Nat.eqb (ncols dst) (ncols src)
   && forallb (fun c => col_nullable dst c || negb (col_nullable src c)) (seq 0 (ncols dst)).
 
-(** execute_bulk_transfer: the source rows (storage order) are validated and inserted ONE BY ONE
-    against the database as it is at that moment -- primary key (enforce_primary_key_constraint),
-    foreign keys in DECLARATION order (validate_foreign_key_constraints); no arity / NOT NULL /
-    DEFAULT handling; an error leaves the earlier rows inserted *)
-Fixpoint bulk_loop (d : db) (dst : nat) (rows : list row) (seen : list key) (n : nat) (ev : list event)
-  : world * result :=
+(** execute_bulk_transfer: phase A validates every source row (storage order) against the
+    database as it is BEFORE the statement and against the rows in front of it in the batch --
+    primary key (enforce_primary_key_constraint: batch, then the table's index), foreign keys in
+    declaration order (validate_foreign_key_constraints); no arity / NOT NULL / DEFAULT handling
+    (the schema compatibility check stands for them).  Phase B appends all rows. *)
+Fixpoint bulk_validate (d : db) (tb : table) (rows : list row) (seen : list key) : option errk :=
   match rows with
-  | [] => ((d, ev), ROk n)
+  | [] => None
   | r :: rest =>
-      match get_table d dst with
-      | None => ((d, ev), RErr ENotFound)
-      | Some tb =>
-          let pkv := match t_pk tb with Some pk => Some (proj pk r) | None => None end in
-          let dup := match pkv, t_pk tb with
-                     | Some k, Some pk => key_mem k seen || key_mem k (map (proj pk) (t_rows tb))
-                     | _, _ => false
+      let pkv := match t_pk tb with Some pk => Some (proj pk r) | None => None end in
+      let dup := match pkv, t_pk tb with
+                 | Some k, Some pk => key_mem k seen || key_mem k (map (proj pk) (t_rows tb))
+                 | _, _ => false
+                 end in
+      if dup then Some EConstraint
+      else match fk_validate proj d (t_fks tb) r with
+           | Some e => Some e
+           | None => bulk_validate d tb rest (match pkv with Some k => k :: seen | None => seen end)
+           end
+  end.
+
+Definition bulk_transfer (d : db) (dst : nat) (tb : table) (rows : list row) : world * result :=
+  match bulk_validate d tb rows [] with
+  | Some e => ((d, []), RErr e)
+  | None =>
+      let nullkey := match t_pk tb with
+                     | Some pk => existsb (fun r => has_null (proj pk r)) rows
+                     | None => false
                      end in
-          if dup then ((d, EvBulkPkCollision :: ev), RErr EConstraint)
-          else match fk_validate proj d (t_fks tb) r with
-               | Some e => ((d, ev), RErr e)
-               | None =>
-                   let nullkey := match pkv with Some k => has_null k | None => false end in
-                   let ev' := if nullkey then EvBulkNullKey :: ev else ev in
-                   let seen' := match pkv with Some k => k :: seen | None => seen end in
-                   bulk_loop (set_rows d dst (t_rows tb ++ [r])) dst rest seen' (S n) ev'
-               end
-      end
+      ((set_rows d dst (t_rows tb ++ rows), if nullkey then [EvBulkNullKey] else []), ROk (length rows))
   end.
 
 (** the non-bulk path: the SELECT is executed (unknown source table = error), its column count
@@ -606,12 +608,7 @@ Definition exec_insert_select (d : db) (dst src : nat) (simple : bool) (sel : li
   | Some dt =>
       match (if simple && negb (Nat.eqb src dst) then get_table d src else None) with
       | Some st =>
-          if bulk_compatible dt st then
-            (let '(w, r) := bulk_loop d dst (t_rows st) [] 0 [] in
-             match r with
-             | ROk _ => (w, r)
-             | _ => (partial_mark d w, r)
-             end)
+          if bulk_compatible dt st then bulk_transfer d dst dt (t_rows st)
           else insert_selected d dst src dt sel
       | None => insert_selected d dst src dt sel
       end
@@ -900,18 +897,20 @@ Definition exec_truncate (ord : list nat) (d : db) (t : nat) (cascade : bool) : 
   end.
 
 (* ------------------------------------------------------------------------------------ *)
-(** * DROP TABLE (no guard) and ALTER TABLE ADD FOREIGN KEY (no validation) *)
+(** * DROP TABLE and ALTER TABLE ADD FOREIGN KEY (no validation) *)
 
 Definition referenced_by_other (d : db) (n : nat) : bool :=
   existsb (fun t => negb (Nat.eqb (t_name t) n)
                     && existsb (fun fk => Nat.eqb (fk_parent fk) n) (t_fks t)) d.
 
+(** DropTableExecutor::execute: a table that another table's FOREIGN KEY references is refused
+    (a self reference does not count) *)
 Definition exec_drop (d : db) (t : nat) : world * result :=
   match get_table d t with
   | None => ((d, []), RErr ENotFound)
   | Some _ =>
-      ((filter (fun x => negb (Nat.eqb (t_name x) t)) d,
-        if referenced_by_other d t then [EvDropReferenced] else []), ROk 0)
+      if referenced_by_other d t then ((d, []), RErr EConstraint)
+      else ((filter (fun x => negb (Nat.eqb (t_name x) t)) d, []), ROk 0)
   end.
 
 (** the rows of [ct] satisfy [fk] (declaration-order tuple, parent looked up in [d]) *)
@@ -938,9 +937,12 @@ Fixpoint list_nat_eqb (a b : list nat) : bool :=
   end.
 
 (** a FOREIGN KEY the three executors agree on: it references the parent's PRIMARY KEY column
-    for column, and its own columns are declared in column order *)
+    for column (its own columns are distinct, in any order) *)
+Fixpoint nat_nodupb (l : list nat) : bool :=
+  match l with [] => true | a :: r => negb (nat_mem a r) && nat_nodupb r end.
+
 Definition fk_standard (d : db) (ct : table) (fk : fkdecl) : bool :=
-  strictly_ascending (fk_cols fk)
+  nat_nodupb (fk_cols fk)
   && forallb (fun c => Nat.ltb c (ncols ct)) (fk_cols fk)
   && match get_table d (fk_parent fk) with
      | Some pt => match t_pk pt with
